@@ -10,7 +10,7 @@ import gv
 
 PROP = "C08"
 REQ_PROPS = ["GV.Props.Props_C08"]
-REQ_RUN = ["GV.Query.RunPat"]
+REQ_RUN = ["GV.Query.RunPat", "GV.Query.RunShape"]
 BINS = ["c08"]
 # tools/seedtest.sh runs a check against a scratch copy of /repo while the normal check may run too:
 # keep the scratch files of the two apart
@@ -46,15 +46,20 @@ def decide(chk, cases):
     if not ok:
         return False, out
     oi = [i for i, c in enumerate(cases) if c.get("orc")]
-    vals = gv.coq_eval(chk.prop + TAG + "_orc", REQ_RUN, [cases[i]["orc"] for i in oi], shard=120)
+    vals = gv.coq_eval(chk.prop + TAG + "_orc", REQ_RUN, [cases[i]["orc"] for i in oi], shard=shape_shard(len(oi)))
     fails = []
     for i, v in zip(oi, vals):
         cases[i]["oracle"] = "ok" if v == "true" else "fail"
         if v != "true":
             fails.append(i)
+    # how many executed GQL / Cypher plans are literally the plan shape the theorems are about
+    si = [i for i, c in enumerate(cases) if c.get("shape")]
+    svals = gv.coq_eval(chk.prop + TAG + "_shape", REQ_RUN, [cases[i]["shape"] for i in si], shard=shape_shard(len(si)))
+    for i, v in zip(si, svals):
+        cases[i].setdefault("tags", []).append("plan:theorem-shape" if v == "true" else "plan:other-shape")
     open_ids = chk.open_finding_ids()
     ki = [i for i in fails if cases[i].get("kall")]
-    kvals = gv.coq_eval(chk.prop + TAG + "_kall", REQ_RUN, [cases[i]["kall"] for i in ki], shard=120)
+    kvals = gv.coq_eval(chk.prop + TAG + "_kall", REQ_RUN, [cases[i]["kall"] for i in ki], shard=shape_shard(len(ki)))
     for i, v in zip(ki, kvals):
         bs = parse_bool_list(v)
         ids = cases[i]["kids"]
@@ -72,6 +77,10 @@ def decide(chk, cases):
             if cases[i].get("coq"):
                 cases[i]["kcoq"] = "andb (%s) (%s)" % (cases[i]["kcoq"], cases[i]["coq"])
     return True, ""
+
+
+def shape_shard(n):
+    return max(20, n // (2 * gv.NCPU) + 1)
 
 
 def samples(cases, n=6):
@@ -105,7 +114,13 @@ def run_prop(prop, req_props, tier, seed, ncases, rule, assumptions):
         chk.violation("model", {"what": "the executable model no longer compiles", "broken": ["coq build of %s failed" % REQ_RUN],
                                 "log": log[-3000:]}, no_input=True)
         return chk.finish(proof)
-    gv.standard_flow(chk, REQ_RUN, cases, proof, prop)
+    # gv.standard_flow evaluates 250 terms per coqc; use all cores instead
+    orig_eval = gv.coq_eval
+    gv.coq_eval = lambda name, req, exprs, shard=250: orig_eval(name + TAG, req, exprs, shard=shape_shard(len(exprs)))
+    try:
+        gv.standard_flow(chk, REQ_RUN, cases, proof, prop)
+    finally:
+        gv.coq_eval = orig_eval
     chk.coverage["rule"] = rule
     chk.coverage["samples"] = samples(cases)
     chk.coverage["trusted_base"] = TRUSTED
